@@ -1,3 +1,23 @@
-From Sigtools.Model Require Import Base Bind Algebra.
-Theorem C04_placeholder : True. Proof. exact I. Qed.
-Print Assumptions C04_placeholder.
+(* C04 — declared forwarding: forwards = embed o mask. *)
+From Sigtools.Model Require Import Base Bind Roles Algebra.
+From Sigtools.Proofs Require Import SmallModel Basics.
+
+Theorem C04_def o i n names0 ha hk uva uvk :
+  forwards o i n names0 ha hk uva uvk false =
+  bind (mask i n names0 (mkHide ha hk false false)) (fun m => embed [o; m] uva uvk).
+Proof. exact (forwards_def o i n names0 ha hk uva uvk). Qed.
+Print Assumptions C04_def.
+
+Theorem C04_partial_def o i n names0 ha hk uva uvk :
+  forwards o i n names0 ha hk uva uvk true =
+  bind (mask (mkSig (map (fun p => match pkind p with VP | VK => p | _ => set_def (Some 0) p end)
+                         (params i)) (ret i) (uret i) (srcs i) (deps i))
+             n names0 (mkHide ha hk false false))
+       (fun m => embed [o; m] uva uvk).
+Proof. exact (forwards_partial_def o i n names0 ha hk uva uvk). Qed.
+Print Assumptions C04_partial_def.
+
+Theorem C04_wf o i n names0 ha hk uva uvk p r :
+  forwards o i n names0 ha hk uva uvk p = Ok r -> validate (params r) = true.
+Proof. exact (forwards_wf o i n names0 ha hk uva uvk p r). Qed.
+Print Assumptions C04_wf.
